@@ -62,6 +62,23 @@ func Refresh(data map[string]string) error {
 	}
 	global.init = true
 
+	// Until the new configuration is live a failure must leave nothing
+	// behind: whatever was started is stopped again, nothing stays bound
+	// to a half-built logger, and Refresh can be called again.
+	var (
+		started []Lifecycle
+		done    bool
+	)
+	defer func() {
+		if done {
+			return
+		}
+		for i := len(started) - 1; i >= 0; i-- {
+			started[i].Stop()
+		}
+		global.init = false
+	}()
+
 	// Factory function to create plugin instances
 	newPlugin := func(typ PluginType, typeKey string) (reflect.Value, error) {
 		if !s.Has(typeKey) {
@@ -174,6 +191,7 @@ func Refresh(data map[string]string) error {
 		if err := a.Start(); err != nil {
 			return errutil.Stack(err, "appender %s start error", a.GetName())
 		}
+		started = append(started, a)
 	}
 
 	// Start all loggers
@@ -181,15 +199,14 @@ func Refresh(data map[string]string) error {
 		if err := l.Start(); err != nil {
 			return errutil.Stack(err, "logger %s start error", l.GetName())
 		}
+		started = append(started, l)
 	}
 
-	// Update logger references in `loggerMap`
+	// Every logger requested through GetLogger must be configured
 	for _, l := range loggerMap {
-		v, ok := cLoggers[l.name]
-		if !ok {
+		if _, ok := cLoggers[l.name]; !ok {
 			return errutil.Explain(nil, "logger %s not found", l.name)
 		}
-		l.logger = v
 	}
 
 	// Helper to find the most appropriate logger for a given tag.
@@ -207,11 +224,6 @@ func Refresh(data map[string]string) error {
 		return findLoggerForTag(tag)
 	}
 
-	// Update `tagMap` with corresponding loggers
-	for tag, obj := range tagRegistry {
-		obj.logger = findLoggerForTag(tag)
-	}
-
 	// Inject properties
 	for k, f := range propertyRegistry {
 		if v := s.Get(toCamelKey(k)); v == "" {
@@ -219,6 +231,14 @@ func Refresh(data map[string]string) error {
 		} else if err = f(v); err != nil {
 			return errutil.Stack(err, "inject property %s error", k)
 		}
+	}
+
+	// Nothing can fail any more: bind the named loggers and the tags
+	for _, l := range loggerMap {
+		l.logger = cLoggers[l.name]
+	}
+	for tag, obj := range tagRegistry {
+		obj.logger = findLoggerForTag(tag)
 	}
 
 	// Update global loggers and appenders
@@ -229,6 +249,7 @@ func Refresh(data map[string]string) error {
 		global.appenders = append(global.appenders, a)
 	}
 
+	done = true
 	return nil
 }
 
